@@ -112,9 +112,7 @@ func runC07(r resIface, c *c07case, rng *prng.R, scratch string) {
 	scripts := 0
 	for _, x := range recs {
 		if x.IsScript {
-			if !ref.HasKeyFilter() {
-				scripts++
-			}
+			scripts++ // only filter.lua (off here) may exclude a script
 			continue
 		}
 		if ref.DBExcluded(int(x.DB)) || ref.KeyExcluded(x.Key) {
@@ -263,7 +261,7 @@ func runC07(r resIface, c *c07case, rng *prng.R, scratch string) {
 		r.Violation(sig("filtered-key-restored"), fmt.Sprintf("keys restored that the configuration excludes (or into a wrong database): %v", extra[:minI(len(extra), 5)]), c)
 		return
 	}
-	if c.Filter == "" && nScripts != scripts {
+	if nScripts != scripts {
 		r.Violation(sig("scripts-loaded-wrong"), fmt.Sprintf("%d SCRIPT LOAD for %d lua scripts in the file", nScripts, scripts), c)
 		return
 	}
@@ -419,5 +417,5 @@ func c07(c *wk.Ctx) {
 	r.Floor("mode:sync", 50)
 	r.Floor("mode:restore", 20)
 	r.Floor("max_connections_pending_together", 4)
-	r.Assume("one RESTORE command per key (no quicklist encodings, threshold above every payload) so exactly-once is countable on the wire; lua scripts are counted only when no filter is configured (C06 covers filters x scripts); the scheduler's settle time only shapes interleavings, no verdict depends on it")
+	r.Assume("one RESTORE command per key (no quicklist encodings, threshold above every payload) so exactly-once is countable on the wire; every lua script must be loaded whatever db/key filter is configured (filter.lua is off in these runs); the scheduler's settle time only shapes interleavings, no verdict depends on it")
 }
